@@ -46,7 +46,7 @@ REAL_VS_STUB = {
 }
 EXPECTED_PROBES = ('is_leaf', 'flatten_func', 'unflatten_func', 'map_fn', 'key.__hash__', 'key.__lt__', 'key.__eq__',
                    'meta.__ne__', 'meta.__repr__', 'f_node', 'f_leaf', 'leaves.__next__',
-                   'children.__next__', 'nt.__new__', 'dc.__post_init__', 'entry.__post_init__', 'tstate-ledger:on', 'success-ledger') + tuple('op:' + n for n in OP_NAMES)
+                   'children.__next__', 'nt.__new__', 'dc.__post_init__', 'entry.__post_init__', 'tstate-ledger:on', 'success-ledger', 'leaf-count-checked') + tuple('op:' + n for n in OP_NAMES)
 # (metadata __eq__ / __hash__ are not in the list: the engine compares custom metadata with `!=` only
 #  (richcomparison.cpp) and deliberately does not hash it (hashing.cpp:42), so those two can never fire)
 
@@ -544,6 +544,29 @@ def run_job(job, io):
                     break
             if violations:
                 break
+    # ---- wrong leaf counts raise the documented ValueError, whatever kind of iterable carries the leaves (a lazy producer's
+    # count is only known by consuming it) -- never a tree, never an internal error
+    if not violations:
+        U.HOOK = None
+        nl = scn.spec.num_leaves
+        base_lv = [U.Leaf(50000 + i) for i in range(nl + nl + 3)]
+        for k in sorted({max(nl - 1, 0), nl + 1, nl + 2, nl + nl + 2} - {nl}):
+            lv = base_lv[:k]
+            producers = (('list', lambda: lv), ('tuple', lambda: tuple(lv)), ('iter', lambda: iter(lv)), ('generator', lambda: (x for x in lv)),
+                         ('map', lambda: map(lambda x: x, lv)), ('deque', lambda: collections.deque(lv)), ('reversed', lambda: reversed(lv)))
+            for pname, mkp in producers:
+                for how, call in (('unflatten', lambda p: optree.tree_unflatten(scn.spec, p)), ('method', lambda p: scn.spec.unflatten(p)),
+                                  ('walk', lambda p: scn.spec.walk(p)), ('traverse', lambda p: scn.spec.traverse(p))):
+                    site = 'leaf-count:%s:%s' % (how, pname)
+                    io.progress({'site': site, 'tape': tape.values})
+                    try:
+                        call(mkp())
+                        viol('wrong-count-accepted', site, '%s accepted %d leaves (as a %s) for a treespec with %d leaves' % (how, k, pname, nl))
+                    except ValueError:
+                        pass
+                    except Exception as e:  # noqa: BLE001
+                        viol('internal-error', site, '%s with %d leaves (as a %s) for a treespec with %d leaves raised %s: %s' % (how, k, pname, nl, type(e).__name__, e))
+            probes['leaf-count-checked'] = probes.get('leaf-count-checked', 0) + 1
     scn_tree = ops_desc['tree']
     scn.close()
     sample = {'op': opname, 'K': K, 'events_head': labels[:12], 'tree': scn_tree[:200], 'faults_injected': len(ks),
